@@ -86,6 +86,12 @@ func (t token) render(f *File, w io.Writer, s *Statement) error {
 		}
 	case packageToken:
 		path := t.content.(string)
+		if f.noAliases {
+			if _, err := w.Write([]byte(strconv.Quote(path))); err != nil {
+				return err
+			}
+			return nil
+		}
 		alias := f.register(path)
 		if _, err := w.Write([]byte(alias)); err != nil {
 			return err
